@@ -363,4 +363,82 @@ theorem releaseSlots_bound (l : NL) (slots : List ASlot) (h : AllBound l.nodes) 
   unfold releaseSlots
   exact releaseAll_bound slots l.nodes h
 
+/-! ### application-supplied slots -/
+
+theorem charge_notin (t : List (Nat × Nat)) (j : Nat) (h : j ∉ t.map (·.1)) : charge t j = 0 := by
+  induction t with
+  | nil => rfl
+  | cons e es ih =>
+    rw [charge_cons]
+    have h1 : ¬ e.1 = j := by intro x; apply h; simp [x]
+    have h2 : j ∉ es.map (·.1) := by intro x; apply h; simp only [map_cons, mem_cons]; exact Or.inr x
+    rw [if_neg h1, ih h2]; rfl
+
+theorem charge_nodup (t : List (Nat × Nat)) (hn : (t.map (·.1)).Nodup) (e : Nat × Nat) (he : e ∈ t) : charge t e.1 = e.2 := by
+  induction t with
+  | nil => cases he
+  | cons x xs ih =>
+    rw [charge_cons]
+    have hn' := nodup_cons.mp hn
+    rcases mem_cons.mp he with h | h
+    · subst h
+      rw [if_pos rfl, charge_notin xs e.1 hn'.1]; omega
+    · have hne : ¬ x.1 = e.1 := by
+        intro heq
+        apply hn'.1
+        exact mem_map.mpr ⟨e, h, heq.symm⟩
+      rw [if_neg hne, ih hn'.2 h]; omega
+
+theorem roomFor_bound (l : List (Option Int)) (t : List (Nat × Nat)) (hn : (t.map (·.1)).Nodup) (hr : roomFor l t = true)
+    (hb : ∀ (i : Nat) (v : Int), l[i]? = some (some v) → v ≤ 16) :
+    ∀ (i : Nat) (v : Int), (addOcc l t 1)[i]? = some (some v) → v ≤ 16 := by
+  intro i v hv
+  rw [addOcc_get] at hv
+  cases hl : l[i]? with
+  | none => rw [hl] at hv; cases hv
+  | some o =>
+    rw [hl] at hv
+    cases o with
+    | none => simp [bump] at hv
+    | some w =>
+      simp only [Option.map_some, bump, Option.some.injEq, Int.one_mul] at hv
+      by_cases hi : i ∈ t.map (·.1)
+      · obtain ⟨e, he, rfl⟩ := mem_map.mp hi
+        have hroom := all_eq_true.mp hr e he
+        rw [hl] at hroom
+        simp only [decide_eq_true_eq] at hroom
+        rw [charge_nodup t hn e he] at hv
+        omega
+      · rw [charge_notin t i hi] at hv
+        have := hb i w hl
+        omega
+
+/-- a slot of the application that passes the checks of `allocate_slot` keeps every core and GPU of the
+    node within one whole -/
+theorem allocChecked_bound (n n' : ANode) (s : ASlot) (hw : slotWF s = true) (hb : OccBound n)
+    (h : allocChecked n s = some n') : OccBound n' := by
+  unfold allocChecked at h
+  split at h
+  · rename_i hc
+    cases h
+    simp only [slotWF, Bool.and_eq_true, decide_eq_true_eq] at hw
+    exact ⟨roomFor_bound n.cores s.cores hw.1 hc.2.1 hb.1, roomFor_bound n.gpus s.gpus hw.2 hc.2.2.1 hb.2⟩
+  · cases h
+
+theorem allocApp_bound (l l' : NL) (pos : Nat) (s : ASlot) (hw : slotWF s = true) (hb : AllBound l.nodes)
+    (h : allocApp l pos s = some l') : AllBound l'.nodes := by
+  unfold allocApp at h
+  cases hn : l.nodes[pos]? with
+  | none => rw [hn] at h; cases h
+  | some n =>
+    rw [hn] at h
+    simp only at h
+    cases hc : allocChecked n s with
+    | none => rw [hc] at h; cases h
+    | some n' =>
+      rw [hc] at h
+      simp only [Option.some.injEq] at h
+      subst h
+      exact allBound_set l.nodes pos n' hb (allocChecked_bound n n' s hw (hb n (mem_of_getElem? hn)) hc)
+
 end RPVerif.NodeList
